@@ -5,4 +5,4 @@ Extraction "model.ml" drv_b2n drv_n2b drv_z_of_n drv_n_of_z drv_nat_of_n drv_n_o
   aes256 key_of encrypt_k decrypt_k decrypt_private_key_k genuine_k prop_decrypt_k prop_roundtrip_k
   encrypt decrypt decrypt_prefix decode_private_key valid_key
   encrypt_private_key decrypt_private_key decrypt_private_key_prefix
-  flip_bit truncate out_eqb genuine prop_decrypt prop_roundtrip prop_refused bytes_eqb.
+  attempts flip_bit truncate out_eqb genuine prop_decrypt prop_roundtrip prop_refused bytes_eqb.
